@@ -869,7 +869,6 @@ func c15Hist(ops []porcupine.Operation) string {
 	return strings.Join(parts, " ")
 }
 
-
 // c15Parked looks at all goroutines: ids and kinds ("pop" / "push") of those parked in sync.Cond.Wait under
 // rpcQueue.Pop / rpcQueue.push, and the number of other goroutines currently inside the queue's code.
 func c15Parked() (ids, kinds []string, others int) {
